@@ -247,8 +247,9 @@ func c20BuildTree(root string, shape string, r gen.R, o c20Opts, big bool) ([]*c
 	// attributes on everything created so far
 	modes := []uint32{0o644, 0o600, 0o755, 0o4755, 0o2750, 0o1777, 0o444, 0o7777}
 	ids := []int{0, 1, 1000, 65534, 65536, 1 << 31}
-	times := []int64{1, 946684800, 1700000000, 2147483647}
-	// (mke2fs -d itself stores only the low 32 bits of a time: dates after 2038 cannot be put in)
+	times := []int64{1, 946684800, 1700000000, 2147483647, -150000000, -1, -2147483648}
+	// (mke2fs -d itself stores only the low 32 bits of a time - times before 1970 as negative numbers; dates after
+	// 2038 are put in afterwards with debugfs, see c20LateTimes)
 	for i, f := range files {
 		if f.link != "" {
 			continue
@@ -343,6 +344,31 @@ func c20Run(c core.Case, env *core.Env) core.Result {
 		script := filepath.Join(work, "ea.cmds")
 		os.WriteFile(script, []byte(strings.Join(cmds, "\n")+"\n"), 0o600)
 		exec.Command("debugfs", "-w", "-f", script, img).CombinedOutput()
+	}
+	// dates after 2038 (epoch bits in the extra field of 256-byte inodes), set with debugfs set_inode_field
+	if o.Inode != 128 && o.Type == "ext4" {
+		late := []struct {
+			stamp string
+			unix  int64
+		}{{"20440506070809", 2346131289}, {"22000101000000", 7258118400}, {"24400229235959", 14836953599}}
+		k := 0
+		for _, f := range files {
+			if f.dir || f.link != "" || f.mtime == 0 || strings.HasPrefix(f.path, "big/") {
+				continue
+			}
+			if k%5 == 2 {
+				l := late[(k/5)%len(late)]
+				out, _ := exec.Command("debugfs", "-w", "-R", fmt.Sprintf("sif \"/%s\" mtime %s", f.path, l.stamp), img).CombinedOutput()
+				if !strings.Contains(string(out), "not found") && !strings.Contains(string(out), "nvalid") {
+					f.mtime = l.unix
+					res.Mark("modification time after 2038 set with debugfs")
+				}
+			}
+			k++
+			if k > 40 {
+				break
+			}
+		}
 	}
 	if o.Index {
 		exec.Command("e2fsck", "-fyD", img).CombinedOutput()
